@@ -99,4 +99,42 @@ CHECKS = {
              "violation. Packed encodings are outside this domain.",
         technique="TLA+ lattice specification evaluated exhaustively by TLC; TLC trace validation of the real merge table",
         ref="DESIGN.md §4 C16"),
+    "C14": dict(
+        category="model_checking",
+        text="Unify.tla specifies the unifier as Seed + Round over an abstract forest (partition with one evidence set per "
+             "class) using TypeLattice!Merge, with the iteration order of each evidence set as a parameter. UnifyMC "
+             "explores, as a powerset construction, every configuration reachable under every order for all judgement "
+             "sets of <= 3/4 judgements over 3 variables and checks termination, Inv_C14_One, Inv_C14_Eq (declared "
+             "equalities, transitively) and Inv_C14_Components (component equalities demanded inside clean classes of the "
+             "full congruence closure). Every set is replayed on the real unifier (outcome must be the model's), and "
+             "random sets of up to 40 variables with packed spans and cyclic evidence are validated by UnifyTrace.tla.",
+        note="""Packed encodings are outside the model's alphabet: for judgement sets that contain them only the order-independent post-conditions (termination, one expression, declared equalities, determinism) are evaluated.""",
+        technique="TLA+ unifier model (powerset construction over fold orders) checked by TLC; replay into the real "
+                  "unifier; TLC trace validation of projected forests",
+        ref="DESIGN.md §4 C14"),
+    "C15": dict(
+        category="model_checking",
+        text="TypeLattice.tla gives the specificity order, Contradictory and the join (fold of Merge, shown order-"
+             "independent on clean evidence by Inv_CleanConfluent); Unify.tla states Inv_C15_Join (a clean class "
+             "resolves to its join, never a conflict; words exactly) and Inv_C15_Conflict (a class that declared "
+             "equalities make plainly contradictory resolves to a conflict). Checked by TLC on all small judgement sets, "
+             "replayed on the real unifier, and validated on random sets including sets generated from a hidden ground-"
+             "truth typing by weakening, with and without one injected contradiction.",
+        note="""Packed encodings are outside the model's alphabet: for judgement sets that contain them only the order-independent post-conditions (termination, one expression, declared equalities, determinism) are evaluated.""",
+        technique="TLA+ lattice + unifier model checked by TLC; replay; TLC trace validation",
+        ref="DESIGN.md §4 C15"),
+    "C02": dict(
+        category="model_checking",
+        text="Inv_C02_Confluent on Unify.tla: the set of configurations reachable under any iteration order collapses to "
+             "one outcome for every enumerated judgement set in the design as implemented (canonical fold order), while "
+             "the deviation HashOrder is shown by TLC to be order-dependent. On the real code, every enumerated set is "
+             "unified 4-6 times and every generated / real contract is analysed 3-10 times in one process (fresh hash "
+             "seeds per HashMap/HashSet instance, shuffled insertion order); UnifyTrace.tla checks Inv_C02_Deterministic "
+             "(one distinct result: class and layout incl. order) on every record.",
+        note="Iteration orders are explored naturally (fresh RandomState keys per collection instance) rather than through "
+             "a permutation hook; the model quantifies over all orders of the unifier's fold, which is the order-sensitive "
+             "step. Other collections (value collection, rule set) are covered only by the repeated whole-pipeline runs.",
+        technique="TLA+ unifier model with nondeterministic fold order (confluence as a state predicate); TLC trace "
+                  "validation of repeated runs of the real code",
+        ref="DESIGN.md §4 C02"),
 }
